@@ -292,8 +292,27 @@ class Sym:
         return "[%s..%s)" % (rp[0], rp[1])
 
     # ------------------------------------------------------------------ polynomials
+    def norm_try(self, t):
+        """`(r as Continue).0` where r is, on the current path, `Try::branch(X)`: the value of `X?` (the inliner's
+        copies of a `?` give `r` several definitions)"""
+        if t[0] == "field" and t[2] == 0:
+            d = strip(t[1])
+            if d[0] == "downcast" and d[2] == "Continue":
+                v = strip(d[1])
+                if v[0] == "var" and self.path_blocks is not None:
+                    try:
+                        ds = self.var_defs(v[1], v[2] if len(v) > 2 else None)
+                    except Exception:
+                        ds = None
+                    if ds and len(ds) == 1:
+                        v = strip(ds[0])
+                if v[0] == "call" and short(v[1]) == "Try::branch" and len(v[2]) == 1:
+                    return ("try", v[2][0])
+        return t
+
     def poly(self, t):
         t = strip(t)
+        t = self.norm_try(t)
         ct = getattr(self, "case_terms", None)
         if ct and t in ct:
             v = ct[t]
@@ -1164,6 +1183,7 @@ class Sym:
     # ------------------------------------------------------------------ names
     def name(self, t):
         t = strip(t)
+        t = self.norm_try(t)
         k = t[0]
         if k == "param":
             return "arg%d" % t[1]
@@ -1190,6 +1210,10 @@ class Sym:
                         it = unmut(ps[2][0])
                         if it[0] == "call" and short(it[1]) in ("<impl [T]>::iter", "Vec::<T, A>::iter") and self.name(it[2][0]) == self.name(t[2][0]):
                             return "Option::<T>::unwrap(Iterator::find(%s,%s))" % (self.arg_name(ps[2][0]), self.arg_name(ps[2][1]))
+            if short(t[1]) in ("Option::<T>::unwrap", "Option::<T>::expect", "Result::<T, E>::unwrap", "Result::<T, E>::expect") and t[2]:
+                kp_ = self.known_payload(t[2][0])
+                if kp_ is not None:
+                    return self.arg_name(kp_)             # `Some(v).unwrap()` on this path
             if short(t[1]) == "FromResidual::from_residual" and len(t[2]) == 1:
                 # the early return of `X?`: the same value as the explicit `Err(e) => return Err(e)` / `None => return None`
                 # arm (error conversions by From are transparent in this vocabulary)
@@ -1705,6 +1729,17 @@ class Sym:
             for g in blk.get("gargs") or []:
                 gs = pp.ty(g)
                 if g.get("k") == "float" or "uom::si::Quantity" in gs or gs in ("f64", "f32"):
+                    return True
+        # operands whose type is known to be a float / a uom quantity (closure bodies inlined into a predicate have
+        # no call-site block to ask)
+        c_ = as_cmp(d, True) if d[0] in ("call", "bin", "un") else None
+        if c_ is not None:
+            for side in (c_[1], c_[2]):
+                try:
+                    ty = self.type_of(side)
+                except Exception:
+                    ty = None
+                if ty is not None and (ty.get("k") == "float" or (ty.get("k") == "adt" and "uom::si::Quantity" in str(ty.get("p", "")))):
                     return True
         return False
 
